@@ -6,10 +6,50 @@ import os
 VERIF = os.path.dirname(os.path.dirname(os.path.abspath(__file__)))
 
 # ids whose check is built and validated; everything else is listed under not_applicable
-IMPLEMENTED = ["C03", "C04", "C08", "C09", "C10", "C11", "C12", "C13", "C14", "C18"]
+IMPLEMENTED = ["C%02d" % i for i in range(1, 21)]
 
 V = "testing/synctest fake clock and durable-blocking rules of go1.26.8; the harness (run under -race by the C20 check)"
 CHECKS = {
+    "C01": dict(cat="exploration", ref="5 (C01), 2 (V)",
+                technique="online invariant monitor at the API boundary (received minus release-started <= H after every receive) over the real disciplines stepped through generated operation scripts in synctest bubbles; real-clock atomic-counter monitor in the C20 runs",
+                text="A single stepper goroutine in a virtual-time bubble drives the real, concurrently running discipline (v2, v1, both simple variants) through scripts that drain to quiescence without releasing, release in random groups/orders, add/remove inputs (v1); the in-flight count is conservative (never above the library's own), so every excess is a real violation. Held = no witness in the executions counted in the evidence.",
+                note=V + "; releases are issued from their own goroutines (H independent handlers is the documented model)."),
+    "C02": dict(cat="exploration", ref="5 (C02), 2 (V, R)",
+                technique="online history checker with unique item identities (priority, channel, sequence number): tag, next-expected sequence per channel, exactly-once at termination; interval-order check over recorded receive intervals in the real-clock runs",
+                text="Every written item is unique, so one pass over the observed deliveries decides loss, duplication, wrong tag and per-priority order; simple variants: exactly-once of Handle arguments.",
+                note=V + "."),
+    "C05": dict(cat="exploration", ref="5 (C05), 3 (rules 5, 8)",
+                technique="online invariant monitor under a saturation window: per-priority in-flight <= divider share after every receive, equality at checkpoints reached by bounded waiting on the fake clock; shares obtained from the configured divider itself",
+                text="Inputs prefilled so that they never run empty; the oracle is armed only while every input still holds H+cap(output)+1 undelivered items; release scripts of all shapes; Fair, Rate and custom sum-preserving dividers.",
+                note=V + "."),
+    "C06": dict(cat="exploration", ref="5 (C06)",
+                technique="bounded-liveness monitor on the synctest fake clock (progress within 50us virtual, about 1000 scheduler rounds) plus a real-time watchdog that classifies busy loops from stack samples",
+                text="'Eventually' is restated as bounded progress, which a finite run can decide: probes with nothing in flight, a lone priority with >= H buffered items, and full delivery + termination when handlers release everything. A stuck library shows either as an expired virtual deadline or as a spin caught by the watchdog.",
+                note=V + "; the lone-priority form is asserted for buffered data (with items trickling in the scheduler may by design wait for one more feedback)."),
+    "C07": dict(cat="exploration", ref="5 (C07)",
+                technique="online monitor of closure events: never-early conditions evaluated at the instant a closure is observed, hold observations at quiescent points while a release is withheld / an idle input stays open, bounded wait for the closure afterwards; Err() values checked",
+                text="All orders of last close / last release / last read for all four variants; a Release that panics because the discipline closed early is attributed to this property by the driver.",
+                note=V + "."),
+    "C15": dict(cat="fault_enumeration", ref="5 (C15)",
+                technique="wrapping divider as contract monitor on every call + single-fault enumeration over divider call indices (every index in a window, sampled later ones, state-triggered placements) with post-fault oracles on Err(), delivery window, capacity and termination; constructor grid",
+                text="For each base scenario a fault-free run counts the divider calls; one fault of each kind is then placed at every call index of the window and at state triggers, and the run is judged. Enumeration is over call indices of sampled scenarios, not over all scenarios.",
+                note=V + "; one fault per run; a placement counts only if the corrupted total is non-zero and differs from the dividend (the property's condition)."),
+    "C16": dict(cat="fault_enumeration", ref="5 (C16)",
+                technique="signal injection (Stop / cancel / Stop after GracefulStop) after every prefix of generated scripts and in hostile states, with bounded-completion, no-output-after, no-Handle-after and order oracles on the fake clock; watchdog for spins; v1 join signals on both clocks",
+                text="Enumerates injection points x signals for v1 priority, v1 Simple and v1 join; the state at injection (all handlers busy, output full, producers blocked, release never sent) is recorded in the evidence.",
+                note=V + "; Handle honours its context."),
+    "C17": dict(cat="exploration", ref="5 (C17)",
+                technique="online history checker over v1 AddInput/RemoveInput scripts: tags per registered channel, frozen taken-count of removed/replaced channels observed at quiescent points, exactly-once per channel, capacity and termination oracles; divider contract monitor",
+                text="Scripts of add / replace / remove / re-add with fresh channel objects interleaved with traffic and releases; control calls run in their own goroutines, one at a time.",
+                note=V + "; H is chosen non-fatal for every subset of registrable priorities."),
+    "C19": dict(cat="exploration", ref="5 (C19)",
+                technique="goroutine census (runtime.Stack filtered by 'created by <library function>') at quiescent points after every way of terminating every discipline on the fake clock; process-wide census with grace period on the real clock",
+                text="State-based verdict without a deadline on the fake clock: after termination plus 1us virtual every leftover goroutine is blocked or sleeping forever. Ways covered: input closure, GracefulStop, Stop, cancel, Stop after GracefulStop, divider fault.",
+                note=V + "; runtime.Stack lists every goroutine with its creator."),
+    "C20": dict(cat="exploration", ref="5 (C20), 2 (R)",
+                technique="Go race detector over real-clock stress runs of every discipline with real handler / producer / control goroutines (plus a small fake-clock block); reports counted and deduplicated by the driver; thorough tier repeats with GODEBUG=asynctimerchan=1",
+                text="Any 'WARNING: DATA RACE' block is a witness. What the detector cannot see: races on paths the workloads do not drive.",
+                note="Go race detector of go1.26.8; the race build is kept to a few hundred synctest bubbles because the race runtime itself occasionally aborts after thousands of bubbles (driver re-runs a part on that signature)."),
     "C03": dict(cat="exploration", ref="5 (C03), 2 (V, R)",
                 technique="offline history checker (conservation/size oracle) over event logs recorded at the API boundary of the real join/unite disciplines, driven by generated producer/consumer scripts on the synctest fake clock and on the real clock",
                 text="Thousands of generated executions of the real v1 join, v2 join and unite (timeouts firing at arbitrary points, slow/retaining consumers, all slice-length classes) are each fully judged after the output closed: concatenation equality, no empty slice, size bounds. Held = no witness among the executions counted in the evidence.",
